@@ -97,6 +97,14 @@ MUTANTS = {
         ('msi-swallow', 'dashlive/server/requesthandler/media_requests.py', "            raise ValueError(\n                f'Segment {seg_num} not found (valid range= {first}->{last})')", "            pass"),
         ('ts2td-int', 'dashlive/mpeg/dash/representation.py', '        seconds = float(timecode) / float(self.timescale)\n', '        seconds = timecode // self.timescale\n'),
     ],
+    'C03': [
+        ('trun-no-mdat-header', 'dashlive/mpeg/mp4.py', '        mdat_sample_start = moof.position + moof.size + mdat.header_size\n', '        mdat_sample_start = moof.position + moof.size\n'),
+        ('trun-offset-base', 'dashlive/mpeg/mp4.py', '            self.data_offset = mdat_sample_start - moof.traf.tfhd.base_data_offset\n', '            self.data_offset = mdat_sample_start - moof.position\n'),
+        ('trun-flag-not-set', 'dashlive/mpeg/mp4.py', '                self.flags |= self.data_offset_present\n', '                pass\n'),
+        ('saio-bug-inverted', 'dashlive/mpeg/mp4.py', "            if self.options.has_bug('saio'):\n                return\n", "            if not self.options.has_bug('saio'):\n                return\n"),
+        ('saio-base', 'dashlive/mpeg/mp4.py', '        return senc_sample_pos - base_data_offset', '        return senc_sample_pos'),
+        ('saio-sample-1', 'dashlive/mpeg/mp4.py', '        senc_sample_pos = senc.position + senc.samples[0].offset', '        senc_sample_pos = senc.position'),
+    ],
     'C04': [
         ('mfhd-h', 'dashlive/mpeg/mp4.py', "        w.write('I', 'sequence_number')", "        w.write('H', 'sequence_number')"),
         ('mehd-swap', 'dashlive/mpeg/mp4.py', "        if self.version == 1:\n            w.write('Q', 'fragment_duration')\n        else:\n            w.write('I', 'fragment_duration')", "        if self.version == 0:\n            w.write('Q', 'fragment_duration')\n        else:\n            w.write('I', 'fragment_duration')"),
